@@ -35,9 +35,25 @@ type sop struct {
 	K string `json:"k"`           // newpart write seekstart seekcur finalize openpart openfile readn drain close remove
 	A int    `json:"a,omitempty"` // argument (payload index, offset, part index, reader index, n)
 	B int    `json:"b,omitempty"` // second argument (buffer size for drain)
+	Z bool   `json:"z,omitempty"` // readn / drain: a zero-length Read precedes every Read (it must not consume anything)
 }
 
-func (o sop) String() string { return fmt.Sprintf("%s(%d,%d)", o.K, o.A, o.B) }
+func (o sop) String() string {
+	if o.Z {
+		return fmt.Sprintf("%s(%d,%d,zero-length reads)", o.K, o.A, o.B)
+	}
+	return fmt.Sprintf("%s(%d,%d)", o.K, o.A, o.B)
+}
+
+// zeroReader issues a zero-length Read before every Read of the wrapped reader.
+type zeroReader struct{ r io.Reader }
+
+func (z zeroReader) Read(p []byte) (int, error) {
+	if n, err := z.r.Read(nil); n != 0 || (err != nil && err != io.EOF) {
+		return 0, fmt.Errorf("zero-length Read returned %d, %v", n, err)
+	}
+	return z.r.Read(p)
+}
 
 type mreader struct {
 	file bool
@@ -146,12 +162,13 @@ func (s *mstate) enabled(cfg c17cfg) []sop {
 	for i, r := range s.readers {
 		for _, n := range []int{1, 2} {
 			if r.off < len(r.data) {
-				ops = append(ops, sop{K: "readn", A: i, B: n})
+				ops = append(ops, sop{K: "readn", A: i, B: n}, sop{K: "readn", A: i, B: n, Z: true})
 			}
 		}
 		for _, b := range c17Bufs {
 			ops = append(ops, sop{K: "drain", A: i, B: b})
 		}
+		ops = append(ops, sop{K: "drain", A: i, B: 2, Z: true})
 		ops = append(ops, sop{K: "close", A: i})
 	}
 	if s.finalized && !s.removed {
@@ -319,7 +336,11 @@ func (im *impl) step(o sop, want []byte) (err error) {
 		}
 		im.readers = append(im.readers, r)
 	case "readn":
-		got, err := readUpTo(im.readers[o.A], o.B, 0)
+		var rd io.Reader = im.readers[o.A]
+		if o.Z {
+			rd = zeroReader{rd}
+		}
+		got, err := readUpTo(rd, o.B, 0)
 		if err != nil {
 			return fmt.Errorf("read of %d bytes from reader %d: %v", o.B, o.A, err)
 		}
@@ -327,7 +348,11 @@ func (im *impl) step(o sop, want []byte) (err error) {
 			return fmt.Errorf("read of %d bytes from reader %d returned %q, want %q", o.B, o.A, got, want)
 		}
 	case "drain":
-		got, err := drainAll(im.readers[o.A], o.B)
+		var rd io.Reader = im.readers[o.A]
+		if o.Z {
+			rd = zeroReader{rd}
+		}
+		got, err := drainAll(rd, o.B)
 		if err != nil {
 			return fmt.Errorf("drain reader %d with %d-byte buffer: %v", o.A, o.B, err)
 		}
